@@ -117,3 +117,9 @@ package collect
 // after lastHigh; it switches on exactly when the level reaches ActivationLevel.
 //@ lemma C15.hysteresis-step props C15 : forall was bool, stay time.Time, lastHigh time.Time, level uint, act uint, deact uint, now time.Time, minD time.Duration :: deact <= act && (was ==> stay == lastHigh.Add(minD)) ==> (nextStressed(was, stay, level, act, deact, now, minD) ==> nextStayOn(was, stay, level, act, deact, now, minD) == ite(reliefOn(was, level, act) && level >= deact, now, lastHigh).Add(minD)) && (was && !nextStressed(was, stay, level, act, deact, now, minD) ==> level < deact && now.Sub(lastHigh) > minD) && (!was ==> (nextStressed(was, stay, level, act, deact, now, minD) == (level >= act)))
 //@ lemma C15.stays-on-while-high props C15 : forall was bool, stay time.Time, level uint, act uint, deact uint, now time.Time, minD time.Duration :: was && level >= deact ==> nextStressed(was, stay, level, act, deact, now, minD)
+
+// ---- C28: panic-freedom of the peer stress message decoder, for every message
+//@ contract collect.newStressReliefMessage inline
+//@ contract collect.unmarshalStressReliefMessage props C28
+//@   arith wraps
+//@   modifies nothing
